@@ -515,7 +515,8 @@ func getParamsCount(stmt sqlparser.Statement) (int, error) {
 	err := sqlparser.Walk(func(node sqlparser.SQLNode) (kontinue bool, err error) {
 		switch nodeType := node.(type) {
 		case *sqlparser.SQLVal:
-			if bytes.HasPrefix(nodeType.Val, []byte(":v")) {
+			// a placeholder, not a string literal that happens to read ':v1'
+			if nodeType.Type == sqlparser.ValArg && bytes.HasPrefix(nodeType.Val, []byte(":v")) {
 				paramsCount++
 			}
 		}
